@@ -58,6 +58,14 @@ type c19Val struct{ K int }
 
 func (e c19Val) Error() string { return fmt.Sprintf("val%d", e.K) }
 
+// a comparable struct VALUE which holds a pointer: two separately made values have equal
+// contents (reflect.DeepEqual) but are not == (different pointers)
+type c19ValP struct{ P *int }
+
+func (e c19ValP) Error() string { return "valp" }
+
+func newC19ValP() c19ValP { x := 7; return c19ValP{P: &x} }
+
 type c19PtrNonStruct int
 
 func (e *c19PtrNonStruct) Error() string { return "pnonstruct" }
@@ -98,6 +106,18 @@ var c19Sents = []c19Sent{
 	{"(SOther 1)", c19Others[1]},
 	{"(SOther 2)", c19Others[2]},
 }
+
+const c19NDocumented = 15
+
+// look-alikes: foreign errors.New values carrying exactly the text of each documented sentinel
+// (Coq: twin_of s = SOther (100 + code s)); appended to c19Sents by init
+func init() {
+	for i := 0; i < c19NDocumented; i++ {
+		c19Sents = append(c19Sents, c19Sent{fmt.Sprintf("(SOther %d)", 100+i), errors.New(c19Sents[i].err.Error())})
+	}
+}
+
+const c19Twin0 = 18 // index of the first twin in c19Sents
 
 const (
 	c19SEOF      = 12
@@ -586,6 +606,34 @@ func (d *c19Desc) subIDs(out []int) []int {
 	return out
 }
 
+// hand-made wrapper nodes whose whole subtree is hand-made from parts that a second build
+// reproduces with equal content (no library call, no pointer-holding struct value)
+func (d *c19Desc) rebuildable() bool {
+	switch d.Kind {
+	case "call":
+		return false
+	case "val":
+		return d.K < 1000
+	}
+	if d.Child != nil {
+		return d.Child.rebuildable()
+	}
+	return true
+}
+
+func (d *c19Desc) twinNodes(out []*c19Desc) []*c19Desc {
+	switch d.Kind {
+	case "lib", "fmt", "conn", "pef":
+		if d.rebuildable() {
+			out = append(out, d)
+		}
+	}
+	if d.Child != nil {
+		return d.Child.twinNodes(out)
+	}
+	return out
+}
+
 type c19PanicRec struct {
 	call   string
 	msg    string
@@ -631,6 +679,9 @@ func (b *c19Builder) build(d *c19Desc) error {
 		b.reg[d.ID] = v
 		return v
 	case "val":
+		if d.K >= 1000 {
+			return newC19ValP() // its own allocation: == to nothing else
+		}
 		return c19Val{K: d.K}
 	case "pnonstruct":
 		v := new(c19PtrNonStruct)
@@ -945,6 +996,7 @@ func c19StdTargets() []error {
 		&c19PtrNoErr{N: -1},
 		c19Val{K: 99},
 		&mqtt.ConnectionError{Err: mqtt.ErrConnectionFailed, Code: 1},
+		newC19ValP(),
 		c19Uncmp{K: 7, S: []int{7}})
 	return ts
 }
@@ -955,6 +1007,7 @@ type c19ChainCase struct {
 	subs  [][2]int
 	flags []bool
 	meth  []int // the value's own Is method against the standard targets (empty: it has none)
+	twins [][2]int // errors.Is against a SECOND build of each hand-made wrapper node
 }
 
 func c19MethodIs(x interface{ Is(error) bool }, target error) (code int) {
@@ -983,7 +1036,11 @@ func (c *c19ChainCase) coq() string {
 	for _, x := range c.flags {
 		fl = append(fl, cBool(x))
 	}
-	return cTuple(c.d.coq(), cListInline(std), cListInline(subs), cListInline(fl), cListInline(meth))
+	var twins []string
+	for _, x := range c.twins {
+		twins = append(twins, fmt.Sprintf("(%s,%d)", cNat(x[0]), x[1]))
+	}
+	return cTuple(c.d.coq(), cListInline(std), cListInline(subs), cListInline(fl), cListInline(meth), cListInline(twins))
 }
 
 func c19Observe(d *c19Desc, b *c19Builder) *c19ChainCase {
@@ -995,6 +1052,12 @@ func c19Observe(d *c19Desc, b *c19Builder) *c19ChainCase {
 	}
 	for _, id := range d.subIDs(nil) {
 		c.subs = append(c.subs, [2]int{id, c19Is(v, b.reg[id])})
+	}
+	// look-alike wrappers: build the hand-made wrapper nodes a second time (new allocations, same
+	// fields, the same sentinel objects inside)
+	for _, n := range d.twinNodes(nil) {
+		b2 := &c19Builder{reg: map[int]error{}, calls: map[string]int{}}
+		c.twins = append(c.twins, [2]int{n.ID, c19Is(v, b2.build(n))})
 	}
 	c.flags = c19Flags(v)
 	if x, ok := v.(interface{ Is(error) bool }); ok {
@@ -1078,6 +1141,10 @@ type c19Gen struct {
 func (g *c19Gen) id() int { g.nextID++; return g.nextID }
 
 func (g *c19Gen) sentinel() *c19Desc {
+	if g.r.Intn(6) == 0 {
+		// a look-alike: foreign error with a documented sentinel's text
+		return &c19Desc{Kind: "sent", Sent: c19Twin0 + g.r.Intn(c19NDocumented)}
+	}
 	x := g.r.Intn(20)
 	if x < 15 {
 		return &c19Desc{Kind: "sent", Sent: x}
@@ -1100,6 +1167,9 @@ func (g *c19Gen) leaf(hostile bool) *c19Desc {
 		case 2:
 			return &c19Desc{Kind: "perrnoterr", ID: g.id()}
 		case 3:
+			if g.r.Intn(2) == 0 {
+				return &c19Desc{Kind: "val", K: 1000 + g.id()}
+			}
 			return &c19Desc{Kind: "val", K: g.r.Intn(3)}
 		case 4:
 			return &c19Desc{Kind: "pnonstruct", ID: g.id()}
@@ -1476,10 +1546,10 @@ func runC19(cfg *runCfg) error {
 	m := &meta{Property: "C19", Distribution: map[string]interface{}{}, Families: map[string][]interface{}{}}
 	b := &c19Builder{reg: map[int]error{}, calls: map[string]int{}}
 
-	nRandom, maxDepth, nRetryRandom, retryDepth := 900, 6, 250, 4
+	nRandom, maxDepth, nRetryRandom, retryDepth := 750, 6, 250, 4
 	switch cfg.tier {
 	case "thorough":
-		nRandom, maxDepth, nRetryRandom, retryDepth = 12000, 9, 4000, 6
+		nRandom, maxDepth, nRetryRandom, retryDepth = 7000, 9, 3000, 6
 	case "search":
 		nRandom, maxDepth, nRetryRandom, retryDepth = 2500, 8, 800, 5
 	}
@@ -1495,6 +1565,12 @@ func runC19(cfg *runCfg) error {
 			{Kind: "fmt", ID: g.id(), Child: &c19Desc{Kind: "sent", Sent: c19SEOF}},
 			{Kind: "lib", ID: g.id(), Child: &c19Desc{Kind: "sent", Sent: c19SClosedTr}},
 			{Kind: "conn", ID: g.id(), Code: 3, Child: &c19Desc{Kind: "lib", ID: g.id(), Child: &c19Desc{Kind: "sent", Sent: 1}}},
+			// look-alikes: the transport / context / option fails with its OWN errors.New("not connected"),
+			// errors.New("context canceled"), errors.New("EOF"), errors.New("read/write on closed transport")
+			{Kind: "sent", Sent: c19Twin0 + 5},
+			{Kind: "sent", Sent: c19Twin0 + c19SCanceled},
+			{Kind: "sent", Sent: c19Twin0 + c19SEOF},
+			{Kind: "fmt", ID: g.id(), Child: &c19Desc{Kind: "sent", Sent: c19Twin0 + c19SClosedTr}},
 		}
 	}
 	// exhaustive: every call scenario at top level, with every fixed cause where it takes one
@@ -1556,8 +1632,8 @@ func runC19(cfg *runCfg) error {
 				nontrivial++
 			}
 		}
-		fc := map[string]interface{}{"value": d.text(), "errors.Is(std targets: 15 documented sentinels, 3 foreign, nil, 5 fresh values, uncomparable)": c.std,
-			"errors.Is(own nodes)": c.subs, "value.Is(std targets), if the value has an Is method": c.meth, "[As RequestTimeoutError, As ErrorWithRetry, As ConnectionError, As Error, .(ErrorWithRetry), ==io.EOF]": c.flags}
+		fc := map[string]interface{}{"value": d.text(), "errors.Is(std targets: 15 documented sentinels, 3 foreign, 15 look-alikes with the sentinels' texts, nil, 6 fresh values, uncomparable)": c.std,
+			"errors.Is(own nodes)": c.subs, "errors.Is(second build of own hand-made wrappers)": c.twins, "value.Is(std targets), if the value has an Is method": c.meth, "[As RequestTimeoutError, As ErrorWithRetry, As ConnectionError, As Error, .(ErrorWithRetry), ==io.EOF]": c.flags}
 		m.Families["chain"] = append(m.Families["chain"], fc)
 		if len(m.Samples) < 3 && d.depth() >= 4 && d.shaped() && d.Kind == "call" {
 			m.Samples = append(m.Samples, fc)
@@ -1682,7 +1758,7 @@ func runC19(cfg *runCfg) error {
 
 	m.Evaluations = len(chainCases) + len(retryCases)
 	m.DistinctNontrivial = nontrivial + retryNontrivial
-	m.Rule = fmt.Sprintf("chain: every real failing-call scenario (%d without cause, %d with each of 7 causes) and every sentinel under 4 wrapper shapes, plus %d random nestings up to depth %d of &mqtt.Error / fmt %%w / ConnectionError / foreign types / real library calls (70%% property-shaped, 30%% with foreign or nil parts); each evaluated with errors.Is against 25 fixed targets and its own nodes, errors.As x4, .(ErrorWithRetry), ==io.EOF; non-trivial = distinct value of depth>=3 in which some documented sentinel is found. "+
+	m.Rule = fmt.Sprintf("chain: every real failing-call scenario (%d without cause, %d with each of 11 causes incl. look-alikes of sentinels) and every sentinel under 4 wrapper shapes, plus %d random nestings up to depth %d of &mqtt.Error / fmt %%w / ConnectionError / foreign types / real library calls (70%% property-shaped, 30%% with foreign or nil parts); each evaluated with errors.Is against 41 fixed targets (incl. look-alikes of every sentinel), its own nodes and second builds of its own wrappers, errors.As x4, .(ErrorWithRetry), ==io.EOF; non-trivial = distinct value of depth>=3 in which some documented sentinel is found. "+
 		"retry: QoS1/QoS2 publish, subscribe, unsubscribe x every first failure step x 5 causes, x every second failure step, plus %d random plans of up to %d interrupted attempts; each Retry runs on a fresh connected BaseClient; non-trivial = at least one Retry was executed",
 		len(g.causeless), len(g.withCause), nRandom, maxDepth, nRetryRandom, retryDepth)
 	m.Distribution["chain_enumerated"] = nEnum
